@@ -118,12 +118,13 @@ func runConc(line string, t []string) string {
 		rsp := make([]*httptest.ResponseRecorder, k)
 		var wg sync.WaitGroup
 		barrier := make(chan struct{})
-		for i := range concQueue {
+		queue := concQueue // (a request that never returns must not be looking at the variable the next operation resets)
+		for i := range queue {
 			wg.Add(1)
 			go func(i int) {
 				defer wg.Done()
 				<-barrier
-				rsp[i] = doHTTP(concQueue[i].method, concQueue[i].path, concQueue[i].body)
+				rsp[i] = doHTTP(queue[i].method, queue[i].path, queue[i].body)
 			}(i)
 		}
 		close(barrier)
